@@ -447,6 +447,9 @@ func (w *World) exchangeNoNotify(entity Entity, add []ID, rem []ID, relation ID,
 			tp, _ := w.registry.ComponentType(relation.id)
 			panic(fmt.Sprintf("can't add relation: %s is not a relation component", tp.Name()))
 		}
+		if !target.IsZero() && !w.entityPool.Alive(target) {
+			panic("can't make a dead entity a relation target")
+		}
 	} else {
 		target = oldArch.RelationTarget
 		if !oldArch.RelationTarget.IsZero() && oldArch.Mask.ContainsAny(&w.registry.IsRelation) {
@@ -586,6 +589,10 @@ func (w *World) exchangeBatchNoNotify(filter Filter, add []ID, rem []ID, relatio
 			panic("exchange operation has no effect, but a relation is specified. Use Batch.SetRelation instead")
 		}
 		return 0
+	}
+
+	if hasRelation && !target.IsZero() && !w.entityPool.Alive(target) {
+		panic("can't make a dead entity a relation target")
 	}
 
 	arches := w.getArchetypes(filter)
